@@ -1996,8 +1996,11 @@ class FileBuilder:
                 FileBuilder._try_to_remove_file(filename)
         FileBuilder._remove_empty_dirs(list(dirs_to_remove))
 
-        FileBuilder._create_dirs(self._old_cache.created_dirs())
+        # Restore the backups before recreating the previous build's
+        # directories. restore_all() creates the directories it needs, and it
+        # can't restore a file if we put a directory in its place.
         self._backups.restore_all()
+        FileBuilder._create_dirs(self._old_cache.created_dirs())
         logger.info('Rolled back build operation')
 
     def _build(self, cache_filename, func, args, kwargs):
